@@ -251,3 +251,23 @@ Proof.
     + apply (XS_leaf w_words w_pu c17s_env 8 (XString (Some 2) None None) (vstr "q")); [exact I|].
       intros w H. vm_compute in H. discriminate H.
 Qed.
+
+(* a one-of whose member is found by the reflected type of the native value (XInner{1,"q"}) *)
+Definition c17s_oneof : xschema := XOneOf [(KS "two", XRef "XTwo" "" None); (KS "inner", c17s_ref)] false "kind" false.
+Example c17s_oneof_native_ex :
+  xvalidate w_words w_pu 12 c17s_env c17s_oneof (xs_inner_v 1 "q") = Err (mkErr true ["{oneof[inner]}"; "b"] EBound) /\
+  xserialize w_words w_pu 12 c17s_env c17s_oneof (xs_inner_v 1 "q") = Err (mkErr true ["b"] EBound).
+Proof.
+  split.
+  - change (mkErr true ["{oneof[inner]}"; "b"] EBound) with (add_seg (oneof_seg (KS "inner")) (mkErr true ["b"] EBound)).
+    apply (struct_oneof_native_validate_path w_words w_pu 10 c17s_env _ false "kind" false (xs_inner_v 1 "q")
+             (TStruct "XInner") (KS "inner") c17s_ref).
+    + left. exists "XInner", [("A", vi64 1); ("B", vstr "q")]. split; reflexivity.
+    + vm_compute. reflexivity.
+    + vm_compute. reflexivity.
+  - apply (struct_oneof_native_serialize_path w_words w_pu 10 c17s_env _ false "kind" false (xs_inner_v 1 "q")
+             (TStruct "XInner") (KS "inner") c17s_ref).
+    + left. exists "XInner", [("A", vi64 1); ("B", vstr "q")]. split; reflexivity.
+    + vm_compute. reflexivity.
+    + vm_compute. reflexivity.
+Qed.
